@@ -173,3 +173,19 @@ def run(cx):
             clock = core.split_args(s_.term[s_.term.index('(') + 1:-1])[-1]
             ok = bool(re.fullmatch(r'cast<u32>\((Time::current_time\(\)|rem\(Time::current_time\(\),4294967296\)|bitand\(Time::current_time\(\),4294967295\))\)', clock))
             cx.check('C06.S3', ok, vr.path, s_.key(), 'clock=now-mod-2^32', 'current time passed to the validity check: ' + clock[:120], s_.loc)
+
+    # ---------------------------------------------------------------- S2 (hits): "accepted records never carry a TTL longer than the remaining signature lifetime"
+    # the authenticated TTL stored with a verdict is as of validation time; a hit must cap it by the entry's remaining life
+    # (which insert() bounds by the signature's)
+    vg = cx.fn('C06.S2', N + 'ValidationCache::get')
+    if vg:
+        hits = cx.returns(vg, r'^Option::Some\(')
+        cx.check('C06.S2', len(hits) == 1, vg.path, 'ret', 'single-hit-return', str(len(hits)))
+        ENTRY = r'try\(LruCache::get_mut\(Mutex::lock\(\^*arg1\.inner\),\^*arg2\)\)@Continue\.0'
+        fam = cx.prog.find(r'^hickory_net::dnssec::ValidationCache::get::\{closure@map[^}]*\}(::\{closure@map[^}]*\})?$')
+        caps = [r_ for g in fam for r_ in cx.returns(g, r'^Ord::min\(')
+                if re.search(r'^Ord::min\(arg2,.*Duration::as_secs\(Instant::(duration_since|saturating_duration_since)\(' + ENTRY + r'\.0,Instant::now\(\)\)\)', r_.term)]
+        stores = [s_ for g in fam for s_ in cx.assigns(g, r'^Option::map\(arg2\.adjusted_ttl,closure:', place=r'adjusted_ttl$')]
+        cx.check('C06.S2', len(caps) == 1 and len(stores) == 1 and all('Result::map(' in h_.term for h_ in hits), vg.path, 'ret', 'hit-ttl-capped-by-the-entry-remaining-lifetime',
+                 f'{len(caps)} caps, {len(stores)} stores; hit = ' + '; '.join(h_.term[:120] for h_ in hits), hits[0].loc if hits else '')
+        cx.guard('C06.S2', hits, {'entry-not-expired': r'^lt:Instant\(Instant::now\(\),' + ENTRY + r'\.0\)$'}, fn=vg)
